@@ -35,9 +35,9 @@ def progNet (c : Nat) (prog : List Cmd) : Int := (prog.map (cmdNet c)).sum
 
 def net (c : Nat) (th : Thread) : Int := pcNet c th.pc + progNet c th.prog
 
-theorem net_dispatch (c : Nat) (th : Thread) (c0 : Cmd) :
-    pcNet c (dispatch th c0).pc = cmdNet c c0 ∧ (dispatch th c0).prog = th.prog := by
-  cases c0 <;> simp only [dispatch, ret] <;> (try split) <;> simp [pcNet, cmdNet]
+theorem net_dispatch (cfg : Cfg) (c : Nat) (th : Thread) (c0 : Cmd) :
+    pcNet c (dispatch cfg th c0).pc = cmdNet c c0 ∧ (dispatch cfg th c0).prog = th.prog := by
+  cases c0 <;> simp only [dispatch, ret] <;> (repeat' split) <;> simp [pcNet, cmdNet]
 
 theorem exec_net (cfg : Cfg) (m : Mem) (th : Thread) (c : Nat) :
     (exec cfg m th).1.ctr c + net c (exec cfg m th).2 = m.ctr c + net c th := by
@@ -48,7 +48,7 @@ theorem exec_net (cfg : Cfg) (m : Mem) (th : Thread) (c : Nat) :
     split
     · simp
     · rename_i c0 rest hp
-      have := net_dispatch c { th with pc := .idle, prog := rest } c0
+      have := net_dispatch cfg c { th with pc := .idle, prog := rest } c0
       obtain ⟨h1, h2⟩ := this
       have h0 : pcNet c PC.idle = 0 := rfl
       simp only [net, hp, progNet, List.map_cons, List.sum_cons, h1, h2]
